@@ -368,7 +368,7 @@ impl Prop for Builder {
         "builder"
     }
     fn cases(&self, tier: Tier) -> u64 {
-        tier.pick(500_000, 12_000_000)
+        tier.pick(500_000, 4_000_000)
     }
     fn strategy(&self, _tier: Tier) -> BoxedStrategy<Payload> {
         payload_strategy()
